@@ -257,9 +257,12 @@ def main(argv):
                 nontrivial.add((ty, hk, ca, maxchain, len(w)))
         bad = [m for m in MONS if (m[0] + "=1") not in mon]
         if bad:
-            detail = mon.split("first_bad=")[1] if "first_bad=" in mon else ""
+            parts = mon.split(" ;; ")
+            per = {}
+            for x in parts[1:]:
+                per[x.split("@")[0]] = x
             try:
-                first_bad = int(detail.split()[0])
+                first_bad = int(parts[0].split("first_bad=")[1].split()[0])
             except (ValueError, IndexError):
                 first_bad = -1
             # the known default-constructed-head defect: the faithful model shows the same observations and
@@ -270,7 +273,8 @@ def main(argv):
                     sig = "default-ctor-" + ("size" if m[1] == "size" else "iter")
                 else:
                     sig = m[1] + "-mismatch"
-                chk.violate(sig, "%s [%s, hash kind %d, A(%s) B(%s)]: %s" % (m[2], TYPES.get(ty), hk, ca, cb, detail[:200]),
+                chk.violate(sig, "%s [%s, hash kind %d, A(%s) B(%s)]: %s" % (m[2], TYPES.get(ty), hk, ca, cb,
+                                                                            per.get(m[1], "")[:200]),
                             dict(rep, first_bad_op=first_bad, monitors=mon))
         if mobs is not None and not same:
             ncorr += 1
